@@ -103,7 +103,7 @@ func (c09Domains) GenesisDomain(_ context.Context, t phase0.DomainType) (phase0.
 // c09New builds the strategy the way main does: through New. Deadline and bid
 // gap are mandatory (non-zero) parameters.
 func c09New(ct *vstub.ChainTime, deadline time.Duration, bidGap time.Duration) *Service {
-	s, err := New(context.Background(), WithLogLevel(zerolog.Disabled), WithMonitor(&nullmetrics.Service{}),
+	s, err := New(context.Background(), WithLogLevel(vnd.LogLevel()), WithMonitor(&nullmetrics.Service{}),
 		WithSpecProvider(c09Spec{}), WithDomainProvider(c09Domains{}), WithChainTime(ct),
 		WithDeadline(deadline), WithBidGap(bidGap))
 	vnd.Assert(err == nil && s != nil, "C09.new.accepted")
